@@ -53,12 +53,13 @@ IsSubseq(a, b) == IF a = <<>> THEN TRUE ELSE IF b = <<>> THEN FALSE
 \* util.BytesRoughlyContains
 Fuzzy(input, out) == IsSub(input, out) \/ (Len(out) >= Len(input) /\ IsSubseq(input, out))
 
-\* processReadBuf: line-aligned tail window
+\* processReadBuf: line-aligned tail window (since fix 09d7a9f the window is not cut when only white space would remain)
 Window(rb, depth) ==
   IF Len(rb) <= depth THEN rb
   ELSE LET t == SubSeq(rb, Len(rb) - depth + 1, Len(rb))
            i == FirstN(t)
-       IN IF i > 1 THEN SubSeq(t, i, Len(t)) ELSE t
+           blank(x) == \A k \in 1..Len(x) : x[k] \in {"N", "_", "R"}
+       IN IF i > 1 /\ ~blank(SubSeq(t, i, Len(t))) THEN SubSeq(t, i, Len(t)) ELSE t
 
 \* processOut: rstrip every line, drop prompt lines when stripping, trim surrounding newlines
 Post(b, strip) ==
